@@ -19,14 +19,31 @@ CLAIM = dict(
           "and multiplicity yields exactly the stored bytes, applying the write chunks in ANY order with duplicates yields "
           "exactly memory[addr := data] and changes no other byte, fill is exact. Tied to the code by exact request-stream "
           "correspondence through the real SCPConnection under loss/duplication/delay/retryable-error schedules and "
-          "windows 1-8, with returned bytes and final simulated memory checked byte for byte."),
+          "windows 1-8, with returned bytes and final simulated memory checked byte for byte. "
+          "Struct and per-core field accessors (read/write_struct_field, read/write_vcpu_struct_field) are modelled "
+          "as functions from the struct table PARSED BY THE MODEL PARSER (C20Parse; for rig/boot/sark.struct the "
+          "kernel-checked sark_parsed, bytes regenerated each run) to those read/write requests, and proved for ALL "
+          "tables, fields, values, cores, buffer sizes: a write leaves exactly the packed little-endian value at "
+          "[base+offset, +size) and changes no other byte in any command order (struct_write_exact), a read returns "
+          "the values packed in exactly those bytes (struct_read_exact, struct_write_then_read), the per-core "
+          "address is sv.vcpu_base (as stored in the machine) + size_of(vcpu)*p + offset for every core p "
+          "(vcpu_field_address, _total), and in a well-formed layout distinct fields - and distinct cores' blocks - "
+          "never share a byte so writing one field never changes another (field_isolated, vcpu_field_isolated); "
+          "well-formedness of the parsed sark.struct is a kernel-checked obligation (sark_layout_ok). The harness's "
+          "struct/vcpu stream is judged by this model through the driver: address, command list, packed bytes in "
+          "final memory, value returned."),
     design="3/C07",
     note=("Machine memory semantics (read/write/fill/link commands) is a Lean specification, simulated in Python. "
           "The fault-schedule clause is proved as the composition theorems read_through_burst / write_through_burst "
           "(Props/C06: for every environment and window, a burst that ends `done` assembles exactly the stored bytes / "
           "leaves exactly memory[addr := data]) and tied to the code here by running the real read/write under fault "
           "scripts against the Lean models readThrough / memAfter; the receive-length corner for unusual buffer sizes "
-          "is checked by the truncating simulated socket."),
+          "is checked by the truncating simulated socket. Struct accessors: struct.pack/unpack is modelled for the "
+          "format units the struct-file parser can produce (optional count + one of s b B H I); the array branch "
+          "of the per-core accessors (`__PAD[4]`, 'pragma: no cover' in the source) is modelled as the code is (ONE "
+          "element) and cross-checked for its address/size only; the independent Python parse of sark.struct is kept "
+          "as a cross-check of the model's table (every field, every struct-file variant, each run); the UTF-8 "
+          "decode of string fields is outside the model (ASCII in the generated cases)."),
     technique="Lean 4 theorems over chunking/memory model + request-trace correspondence against a simulated machine")
 
 THEOREMS = ["dtype_table_is_hardware_rule", "dtype_sound", "read_partition", "write_partition",
@@ -197,6 +214,40 @@ def field_size(pack, cnt):
 _HANGS = [0]
 
 
+def canon_value(v):
+    """what an accessor returned, in the shape of the Lean model's `RVal` (Model/C07Struct.lean)"""
+    def val(u):
+        return {"b": list(u)} if isinstance(u, (bytes, bytearray)) else u
+    if isinstance(v, str):
+        return {"text": list(v.encode("utf-8"))}
+    if isinstance(v, (tuple, list)):
+        return {"tuple": [val(u) for u in v]}
+    return {"one": val(v)}
+
+
+_TEXT_HEX = {}
+
+
+def struct_model_req(case, res, variant):
+    """the request that makes the Lean model (over the table its own parser reads from the struct file) work out
+    the same access: address, size, the read / write commands, the packed bytes resp. the value returned"""
+    from harness import common
+    r = {"suite": "c07struct", "buf": case["buf"], "field": case["field"], "mem": res.get("mem_segs", [])}
+    if variant:
+        if variant not in _TEXT_HEX:
+            _TEXT_HEX[variant] = struct_text(common.REPO, variant).encode().hex()
+        r["text"] = _TEXT_HEX[variant]
+    if case["op"] == "struct":
+        r["struct"] = "sv"
+        r["op"] = "struct_read" if case["rw"] == "r" else "struct_write"
+    else:
+        r["p"] = case["p"]
+        r["op"] = "vcpu_read" if case["rw"] == "r" else "vcpu_write"
+    if case["rw"] == "w":
+        r["value"] = res["value"]
+    return r
+
+
 def run_impl(case, table, env=None):
     from rig.machine_control import scp_connection as sc
     script = case["script"]
@@ -253,6 +304,7 @@ def run_impl(case, table, env=None):
                 from harness import common
                 mc.structs = struct_file.read_struct_file(struct_text(common.REPO, case["variant"]).encode())
                 env["table"] = independent_struct_table(common.REPO, case["variant"])
+                env["variant"] = case["variant"]
             buf = mc.scp_data_length            # one SVER request (send index 0)
             n_before = len(machine.requests)
             before = {k: dict(v) for k, v in machine.mem.items()}
@@ -299,15 +351,24 @@ def run_impl(case, table, env=None):
                     vbase = struct.unpack("<I", machine.peek(x, y, table["sv"]["base"] + voff, 4))[0]
                     address = vbase + table["vcpu"]["size"] * p + off
                 res["address"] = address
+                res["py_size"] = size
+                # what the machine holds where the Lean model (run afterwards, over the PARSED table) will look:
+                # the system-variable block and this core's block, as they are before the access
+                res["mem_segs"] = [[table["sv"]["base"], list(machine.peek(x, y, table["sv"]["base"], table["sv"]["size"]))]]
+                if op == "vcpu":
+                    blk = vbase + table["vcpu"]["size"] * p
+                    res["mem_segs"].append([blk, list(machine.peek(x, y, blk, table["vcpu"]["size"]))])
                 if case["rw"] == "r":
                     want = machine.peek(x, y, address, size)
                     if op == "struct":
                         v = mc.read_struct_field("sv", case["field"], x, y, p)
+                        res["value_got"] = canon_value(v)
                         packed = struct.pack("<" + {"c": "b", "C": "B", "v": "H", "V": "I"}[pack] * cnt,
                                              *(v if cnt > 1 else [v]))
                         res.update(want=list(want), got=list(packed))
                     else:
                         v = mc.read_vcpu_struct_field(case["field"], x, y, p)
+                        res["value_got"] = canon_value(v)
                         if isinstance(v, str):
                             got = want      # strings are stripped/decoded: only the requests are compared
                             res["string"] = True
@@ -324,6 +385,7 @@ def run_impl(case, table, env=None):
                         value = "".join(r.choice("abcXYZ") for _ in range(
                             r.choice([0, 1, size - 1, size, size, r.randrange(0, size + 1)])))     # incl. exactly the field width
                         data = value.encode().ljust(size, b"\x00")
+                    res["value"] = ({"b": list(value.encode())} if isinstance(value, str) else value)
                     if op == "struct":
                         mc.write_struct_field("sv", case["field"], value, x, y, p)
                     else:
@@ -386,8 +448,56 @@ def cmds_as_chunks(cmds):
     return out
 
 
+def judge_struct_cases(ctx, sreqs, smeta):
+    """struct / per-core accesses against the Lean model `structRead` / `structWrite` / `vcpuRead` / `vcpuWrite`
+    (theorems struct_write_exact, struct_read_exact, vcpu_field_address, field_isolated in Props/C07Struct.lean)"""
+    for (case, res), r in zip(smeta, ctx.lean(sreqs) if sreqs else []):
+        impl_err = res.get("error")
+        got = cmds_as_chunks(res["cmds"])
+        if impl_err == "Timeout" and not res["cmds"]:
+            continue
+        if "err" in r:
+            # the generated cases name existing fields and give values in range: the model accepts them all
+            ctx.mismatch("c07struct." + case["op"], "model raises %s, implementation: %r" % (r["err"], impl_err), case)
+            continue
+        ctx.tag("struct_model_judged")
+        # cross-check of the model against the independent Python parse of the struct file
+        if (r["addr"], r["size"]) != (res["address"], res["py_size"]):
+            ctx.mismatch("c07struct.crosscheck", "field %s: Lean model says %#x+%d, the independent parse %#x+%d" % (
+                case["field"], r["addr"], r["size"], res["address"], res["py_size"]), case)
+            continue
+        want = r["cmds"]
+        if impl_err in ("Timeout",):
+            if got != want[:len(got)]:
+                ctx.mismatch("c07struct." + case["op"], "command prefix differs: model=%r impl=%r" % (want[:3], got[:3]), case)
+            continue
+        if impl_err is not None:
+            continue                    # already reported (unexpected-error)
+        n_base = 1 if case["op"] == "vcpu" else 0      # buffer >= 4: the vcpu_base word is one command
+        field_cmds = got[n_base:]
+        first = field_cmds[0] if field_cmds else None
+        if first is None or first[0] != r["addr"]:
+            ctx.violation("struct-address", "field %s accessed at %#x, the struct file (parsed by the model) says %#x" % (
+                case["field"], first[0] if first else -1, r["addr"]), case)
+            continue
+        if got != want:
+            i = next((i for i, (a, b) in enumerate(zip(got, want)) if a != b), min(len(got), len(want)))
+            ctx.mismatch("c07struct." + case["op"], "command %d differs: model=%r impl=%r (counts %d/%d)" % (
+                i, want[i:i + 1], got[i:i + 1], len(want), len(got)), case)
+        if case["rw"] == "r":
+            if res.get("value_got") != r["value"]:
+                ctx.violation("read-not-exact", "field %s: the accessor returned %r, the bytes at %#x hold %r" % (
+                    case["field"], res.get("value_got"), r["addr"], r["value"]), case)
+        else:
+            now = res["field_after"]        # the bytes at [address, address + size) right after the access
+            if now != r["data"]:
+                ctx.violation("write-not-exact", "field %s: memory at %#x holds %r, the value packs to %r" % (
+                    case["field"], r["addr"], now[:8], r["data"][:8]), case)
+
+
 def eval_cases(ctx, cases, table, env=None):
     reqs, meta = [], []
+    sreqs, smeta = [], []
     table0 = table
     for case in cases:
         table = (env or {}).get("table", table0)     # a session may have swapped the struct definitions
@@ -449,15 +559,15 @@ def eval_cases(ctx, cases, table, env=None):
         if mr is not None:
             reqs.append(mr)
             meta.append((case, res))
-        elif res.get("ok") and "address" in res:
-            # struct / vcpu field: address = base + offset from the independent parse
-            data_cmds = [q for q in res["cmds"] if q["cmd"] in (2, 3)]
-            if case["op"] == "vcpu":
-                data_cmds = data_cmds[1:]       # the first command reads sv.vcpu_base
-            first = data_cmds[0] if data_cmds else None
-            if first is None or first["arg1"] != res["address"]:
-                ctx.violation("struct-address", "field %s accessed at %#x, sark.struct says %#x" % (
-                    case["field"], first["arg1"] if first else -1, res["address"]), desc)
+        elif "address" in res and ("value" in res or case.get("rw") == "r"):
+            # struct / vcpu field: judged by the Lean model over the PARSED table (below); the independent
+            # Python parse (res["address"], res["py_size"]) stays as a cross-check of the model
+            sreqs.append(struct_model_req(case, res, (env or {}).get("variant", 0)))
+            chip_mem = after.get((x, y), {})
+            res["field_after"] = [chip_mem[a] if a in chip_mem else simmachine.default_byte(x, y, a)
+                                  for a in range(res["address"], res["address"] + res["py_size"])]
+            smeta.append((case, res))
+    judge_struct_cases(ctx, sreqs, smeta)
     for (case, res), r in zip(meta, ctx.lean(reqs)):
         impl_err = res.get("error")
         got = cmds_as_chunks(res["cmds"])
@@ -482,12 +592,48 @@ def eval_cases(ctx, cases, table, env=None):
                 i, want[i:i + 1], got[i:i + 1], len(want), len(got)), case)
 
 
+def check_struct_tables(ctx):
+    """the table the Lean model works on (its own parse of the struct file's bytes) against the independent Python
+    parse, for EVERY field of both structs and every struct-file variant the sessions use; and the decided
+    hypothesis of the isolation / per-core address theorems (`tableOKB`) on each of these tables"""
+    from harness import common
+    for variant in range(4):
+        tab = independent_struct_table(common.REPO, variant)
+        extra = {"text": struct_text(common.REPO, variant).encode().hex()} if variant else {}
+        vb = 0xe5007000
+        segs = [[tab["sv"]["base"] + tab["sv"]["fields"]["vcpu_base"][0], list(struct.pack("<I", vb))]]
+        reqs = [dict(extra, suite="c07struct", op="layout")]
+        keys = []
+        for sname in ("sv", "vcpu"):
+            for fname, (off, pack, cnt) in sorted(tab[sname]["fields"].items()):
+                if sname == "sv":
+                    reqs.append(dict(extra, suite="c07struct", op="struct_read", buf=256, struct="sv", field=fname, mem=segs))
+                    keys.append((fname, tab["sv"]["base"] + off, field_size(pack, cnt)))
+                else:
+                    p = (off + cnt) % 18
+                    # the per-core accessors use ONE element of an array field (`__PAD[4]`: 4 bytes)
+                    size = field_size(pack, 1) if pack in PERL_SIZE else field_size(pack, cnt)
+                    reqs.append(dict(extra, suite="c07struct", op="vcpu_read", buf=256, field=fname, p=p, mem=segs))
+                    keys.append((fname, vb + tab["vcpu"]["size"] * p + off, size))
+        out = ctx.lean(reqs)
+        lay = out[0]
+        if not lay.get("ok") or (variant == 0 and not lay.get("same")):
+            ctx.mismatch("c07struct.layout", "the struct table (variant %d) is not what the theorems assume: %r" % (variant, lay),
+                         {"variant": variant})
+        for (fname, addr, size), r in zip(keys, out[1:]):
+            if (r.get("addr"), r.get("size")) != (addr, size):
+                ctx.mismatch("c07struct.crosscheck", "variant %d field %s: Lean model %r+%r, independent parse %#x+%d" % (
+                    variant, fname, r.get("addr"), r.get("size"), addr, size), {"variant": variant, "field": fname})
+        ctx.tag("struct_table_crosschecked")
+
+
 def run(ctx):
     from harness import common
     ctx.extra["rule"] = RULE
     ctx.assumptions += ["buffer size >= 4 (link transfers need one whole word); sizes that are not multiples of 4 are included",
                         "simulated machine memory semantics = Lean execWrite/execFill/readMem"]
     table = independent_struct_table(common.REPO)
+    check_struct_tables(ctx)
     n = ctx.scale(1500, 40000)
     if ctx.extended:
         n *= 4
@@ -616,3 +762,8 @@ def replay(ctx, payload):
     else:
         eval_cases(ctx, [payload["case"]], independent_struct_table(common.REPO))
 THEOREMS += ['gen_read_packets', 'gen_write_packets', 'gen_write_across_link', 'gen_fill']   # translator tie: generated function bodies = model (Props/C07Gen.lean)
+# struct / per-core field accessors over the PARSED struct table (Model/C07Struct.lean, Props/C07Struct.lean)
+THEOREMS += ['struct_write_exact', 'struct_read_exact', 'struct_write_then_read', 'packItem_int', 'leBytes_getD',
+             'unpackAll_packAll', 'vcpu_field_address', 'vcpu_field_address_total', 'layout_apart', 'field_isolated',
+             'vcpu_field_isolated', 'sark_layout_ok', 'sark_field_isolated', 'sark_vcpu_field_address',
+             'sark_vcpu_field_isolated']
